@@ -31,7 +31,18 @@ def build_corpus(tier, seed):
             rnd.shuffle(ds)
             c = gen.case(variants, ds, shell=rnd.choice(gen.SHELLS))
             dag.append(corpus.finish(c, len(cases) + len(rc) + len(dag) + 1, origin="dag"))
-    return cases + rc + dag, total, exh_complete
+    # the within-word families of C04 (several expressions of equal / unequal shape, the same items in a different arrangement, ...)
+    from props import c04
+    fam = []
+    for variants in c04.shapes(rnd):
+        for sh in gen.SHELLS:
+            fam.append(corpus.finish(gen.case(variants, [], shell=sh), len(cases) + len(rc) + len(dag) + len(fam) + 1, origin="family"))
+    # a group's description and literals inside it that have their own (the group's goes to the first literal without one)
+    from props import c14
+    for vs, defs in c14.described_groups():
+        for sh in ("fish", "zsh"):
+            fam.append(corpus.finish(gen.case([t for _, t in vs], defs, shell=sh), len(cases) + len(rc) + len(dag) + len(fam) + 1, origin="family"))
+    return cases + rc + dag + fam, total, exh_complete
 
 
 def subset_mechanism(ok, tier, corrupt=None):
